@@ -170,3 +170,22 @@ Theorem in_place_methods_tie :
   /\ Gen_C12.pose_normalize_distribution = C12_GenTie.normalize_distribution_literal.
 Proof. exact C12_GenTie.in_place_methods_tie. Qed.
 Print Assumptions in_place_methods_tie.
+
+(* ---------- class structure of the current source: overrides and attribute hooks (proofs/ClassesTie.v) ---------- *)
+Require Import ClassesTie.
+Theorem C12_tie_class_numpy_body : over_numpy_body = Some exp_over_numpy_body.
+Proof. exact over_numpy_body_tie. Qed.
+Print Assumptions C12_tie_class_numpy_body.
+Theorem C12_tie_class_torch_body : over_torch_body = Some exp_over_torch_body.
+Proof. exact over_torch_body_tie. Qed.
+Print Assumptions C12_tie_class_torch_body.
+Theorem C12_tie_class_tf_body : over_tf_body = Some exp_over_tf_body.
+Proof. exact over_tf_body_tie. Qed.
+Print Assumptions C12_tie_class_tf_body.
+Theorem C12_tie_class_subclasses : subclasses = exp_subclasses.
+Proof. exact subclasses_tie. Qed.
+Print Assumptions C12_tie_class_subclasses.
+Theorem C12_tie_class_attr_hooks : Gen_Classes.attr_hooks = exp_attr_hooks.
+Proof. exact attr_hooks_tie. Qed.
+Print Assumptions C12_tie_class_attr_hooks.
+
